@@ -20,7 +20,8 @@ EXPLANATION = (
     'String.Single. R8.3 (StripCommentsFilter): only the token found by the comment lookup is removed or replaced; both hint '
     'types are skipped before any effect; the replacement is a whitespace token; removal without a separator happens only when '
     'the left neighbour is absent or "(". R8.4: case/truncate filters run on the token stream (preprocess), comment stripping on '
-    'grouped statements. Not decided: idempotence; case mappings that change length; fusion across group boundaries.')
+    'grouped statements. R8.2 is decided by interpreting one iteration of <Filter>.process (method resolved through the MRO, helper '
+    'methods expanded) on every token type of the lexer table x {plain, double-quoted} value. Not decided: idempotence; case mappings that change length; fusion across group boundaries.')
 
 KW = TT(('Keyword',))
 NAME = TT(('Name',))
